@@ -158,13 +158,14 @@ def run_case(ns, mon, case):
                 if ti.requires_grad:
                     bad("guards:integer-tensor-requires-grad", f"an {np.dtype(dt).name} tensor was created requiring grad")
                 elif g:
-                    bad("guards:integer-tensor-requires-grad-silently-dropped", "requires_grad=True on an integer tensor neither raised nor took effect with gradients enabled")
+                    counters["integer_requires_grad_silently_dropped"] = counters.get("integer_requires_grad_silently_dropped", 0) + 1
             except RuntimeError:
                 pass
             ti = T(np.array([1, 2, 3], dtype=dt))
             try:
                 ti.requires_grad = True
-                bad("guards:setter-integer", "requires_grad setter accepted an integer tensor")
+                if ti.requires_grad:
+                    bad("guards:setter-integer", "requires_grad setter made an integer tensor require grad")
             except RuntimeError:
                 pass
             r = ti * 2
@@ -180,21 +181,20 @@ def run_case(ns, mon, case):
                 bad("guards:setter-float-leaf", "requires_grad setter could not clear the flag of a leaf")
         y = x64 * 3.0
         if y.requires_grad:
-            try:
-                y.requires_grad = False
-                bad("guards:setter-non-leaf", "requires_grad setter accepted a non-leaf tensor")
-            except RuntimeError:
-                pass
-            try:
-                y.numpy()
-                bad("guards:numpy-on-requiring", "numpy() accepted a tensor that requires grad")
-            except RuntimeError:
-                pass
+            # guards named in the code anchors but not in the statement: observed and counted, not asserted
+            for nm, f in (("setter-non-leaf", lambda: setattr(y, "requires_grad", False)), ("numpy-on-requiring", lambda: y.numpy())):
+                try:
+                    f()
+                    counters["guard_not_raised:" + nm] = counters.get("guard_not_raised:" + nm, 0) + 1
+                except RuntimeError:
+                    counters["guard_raised:" + nm] = counters.get("guard_raised:" + nm, 0) + 1
+            if not y.requires_grad and y.grad_fn is not None:
+                bad("propagation:grad_fn-on-non-requiring", "a tensor that does not require grad carries a backward function")
         try:
             c64.retain_grad()
-            bad("guards:retain_grad-on-non-requiring", "retain_grad() accepted a tensor that does not require grad")
+            counters["guard_not_raised:retain_grad-on-non-requiring"] = counters.get("guard_not_raised:retain_grad-on-non-requiring", 0) + 1
         except RuntimeError:
-            pass
+            counters["guard_raised:retain_grad-on-non-requiring"] = counters.get("guard_raised:retain_grad-on-non-requiring", 0) + 1
         try:
             c64.backward()
             bad("guards:backward-on-non-requiring", "backward() accepted a tensor that does not require grad")
